@@ -43,8 +43,11 @@ def _angle_reps(tier):
     return [K.angle_spec(d, u, k) for d in degs for (u, k) in reps]
 
 
+INT_CENTRE = (12, 7)          # Python ints: PixCoord keeps them as ints
+
+
 def _centres(tier):
-    return [K.CENTRES[1], K.CENTRES[2]] if tier == 'quick' else K.CENTRES
+    return ([K.CENTRES[1], K.CENTRES[2]] if tier == 'quick' else list(K.CENTRES)) + [INT_CENTRE]
 
 
 def configs(tier):
@@ -93,7 +96,7 @@ def configs(tier):
     return out
 
 
-CONTAINERS = ['flat', 'scalar', 'scalar_int', 'empty', '2d', '3d', 'broadcast', 'intarr', 'in_array']
+CONTAINERS = ['flat', 'scalar', 'scalar_int', 'empty', '2d', '3d', 'broadcast', 'intarr', 'in_array', 'narrow_int', 'reassign']
 
 
 def _isboolscalar(v):
@@ -124,7 +127,7 @@ def _cmp(res, case, what, got, want, sure, shape):
     return True
 
 
-THIN = ['flat', 'scalar']
+THIN = ['flat', 'scalar', 'narrow_int']
 
 
 def check_config(res, spec, includes=K.INCLUDES, containers=CONTAINERS, full=True):
@@ -242,6 +245,56 @@ def _one(res, reg, ref, s, flag, cont, case, qx, qy, ins0, sure0, PixCoord):
         ins, sure = ref.member(x.astype(float), y.astype(float))
         got = reg.contains(PixCoord(x, y))
         _cmp(res, case, 'int array', got, want_of(ins), sure, x.shape)
+    elif cont == 'narrow_int':
+        # narrow and unsigned integer dtypes, small and large offsets from the centre
+        cx, cy = (s.get('center') or s.get('start') or [float(np.mean(s['vertices'][0])), float(np.mean(s['vertices'][1]))])
+        bx, by = int(math.floor(cx)), int(math.floor(cy))
+        offs = [(0, 0), (1, 0), (-1, 1), (2, -2), (-3, -1), (0, 4), (5, 5), (100, -100), (200, 150), (-181, 182), (30000, 1), (70000, -66000), (-46341, 46341)]
+        for dt in ('uint8', 'uint16', 'int8', 'int16', 'int32', 'uint32', 'int64'):
+            info = np.iinfo(dt)
+            pts = [(bx + a, by + b) for a, b in offs if info.min <= bx + a <= info.max and info.min <= by + b <= info.max]
+            if not pts:
+                continue
+            x = np.array([p[0] for p in pts], dtype=dt)
+            y = np.array([p[1] for p in pts], dtype=dt)
+            ins, sure = ref.member(np.array([p[0] for p in pts], float), np.array([p[1] for p in pts], float))
+            res.transitions += 1
+            got = reg.contains(PixCoord(x, y))
+            ok = _cmp(res, {**case, 'dtype': dt}, f'{dt} query array', got, want_of(ins), sure, x.shape)
+            res.outcome(('narrow_int', dt, ok))
+    elif cont == 'reassign':
+        # the answer must follow the *current* parameters: query, re-assign every parameter, query again
+        import astropy.units as u
+        reg2 = G.build(s)
+        reg2.contains(PixCoord(qx[:4], qy[:4]))
+        t = dict(s)
+        sizes = [k for k in ('radius', 'width', 'height', 'outer_radius', 'outer_width', 'outer_height', 'inner_radius', 'inner_width', 'inner_height') if k in s]
+        for k in sizes:
+            t[k] = s[k] * 1.5
+        if 'center' in s:
+            t['center'] = [s['center'][0] + 0.75 * ref.size() if isinstance(s['center'][0], float) else s['center'][0] + 3, s['center'][1]]
+        if 'angle' in s:
+            t['angle'] = [s['angle'][0] + 17.0 * G.UNIT['deg'] / G.UNIT[s['angle'][1]], s['angle'][1], s['angle'][2] if len(s['angle']) > 2 else 'quantity']
+        if s['cls'] in ('polygon', 'regpoly', 'line', 'point', 'text') and s['cls'] != 'regpoly':
+            res.transitions -= 1
+            return
+        if s['cls'] == 'regpoly':
+            res.transitions -= 1
+            return        # vertices of a regular polygon are derived at construction (not part of this property)
+        from regions import PixCoord as PC
+        # assign outer sizes first so that inner < outer holds at every step
+        for k in sorted(sizes, key=lambda n: 0 if n.startswith('outer') else 1):
+            setattr(reg2, k, t[k])
+        if 'center' in s:
+            reg2.center = PC(t['center'][0], t['center'][1])
+        if 'angle' in s:
+            reg2.angle = G._angle_obj(t['angle'])
+        ref2 = G.Ref(t)
+        x2, y2 = G.shape_frame_queries(t)
+        ins2, sure2 = ref2.member(x2, y2)
+        got = reg2.contains(PixCoord(x2, y2))
+        ok = _cmp(res, case, 'after re-assigning all parameters', got, (ins2 if flag else ~ins2), sure2, x2.shape)
+        res.outcome(('reassign', s['cls'], ok))
     elif cont == 'in_array':
         try:
             PixCoord(qx[:3], qy[:3]) in reg
